@@ -289,7 +289,9 @@ func factoriesFor(info *tinkpb.KeysetInfo) []string {
 	return out
 }
 
-func shortType(url string) string { return strings.TrimPrefix(strings.TrimPrefix(url, urlPrefix), "type.googleapis.com/") }
+func shortType(url string) string {
+	return strings.TrimPrefix(strings.TrimPrefix(url, urlPrefix), "type.googleapis.com/")
+}
 
 func primaryType(info *tinkpb.KeysetInfo) string {
 	for _, ki := range info.KeyInfo {
@@ -343,7 +345,9 @@ func hugeSegment(h *keyset.Handle) bool {
 	return false
 }
 
-func isSLHPrivatePrimary(info *tinkpb.KeysetInfo) bool { return primaryType(info) == "SlhDsaPrivateKey" }
+func isSLHPrivatePrimary(info *tinkpb.KeysetInfo) bool {
+	return primaryType(info) == "SlhDsaPrivateKey"
+}
 
 func hasSLHPrivate(info *tinkpb.KeysetInfo) bool {
 	for _, ki := range info.KeyInfo {
@@ -626,7 +630,11 @@ func (e *env) runFactory(f string, h *keyset.Handle, info *tinkpb.KeysetInfo, in
 				return result{oUseErr, errOf(err)}
 			}
 			e.guard("jwt.MAC.VerifyMACAndDecode", func() { got, verr = p.VerifyMACAndDecode(tok, val) })
-			e.guard("jwt.MAC.VerifyMACAndDecode(garbage)", func() { p.VerifyMACAndDecode(garbageTok, val); p.VerifyMACAndDecode("", val); p.VerifyMACAndDecode(tok[:len(tok)/2], val) })
+			e.guard("jwt.MAC.VerifyMACAndDecode(garbage)", func() {
+				p.VerifyMACAndDecode(garbageTok, val)
+				p.VerifyMACAndDecode("", val)
+				p.VerifyMACAndDecode(tok[:len(tok)/2], val)
+			})
 			if verr != nil || got == nil {
 				return result{oInconsistent, fmt.Sprintf("token %q; VerifyMACAndDecode: %v", tok, verr)}
 			}
@@ -660,7 +668,11 @@ func (e *env) runFactory(f string, h *keyset.Handle, info *tinkpb.KeysetInfo, in
 		var got *jwt.VerifiedJWT
 		var cerr error
 		e.guard("jwt.Verifier.VerifyAndDecode", func() { got, cerr = v.VerifyAndDecode(tok, val) })
-		e.guard("jwt.Verifier.VerifyAndDecode(garbage)", func() { v.VerifyAndDecode(garbageTok, val); v.VerifyAndDecode("", val); v.VerifyAndDecode(tok[:len(tok)/2], val) })
+		e.guard("jwt.Verifier.VerifyAndDecode(garbage)", func() {
+			v.VerifyAndDecode(garbageTok, val)
+			v.VerifyAndDecode("", val)
+			v.VerifyAndDecode(tok[:len(tok)/2], val)
+		})
 		if cerr != nil || got == nil {
 			return result{oInconsistent, fmt.Sprintf("token %q; VerifyAndDecode under Public(): %v", tok, cerr)}
 		}
